@@ -929,6 +929,13 @@ func genValueTokens(r *core.Rand, t reflect.Type, f reflect.StructField, inList 
 				}
 				ls = append(ls, l)
 			}
+			if r.Chance(1, 4) {
+				// text with empty lines: in front, in the middle, at the end (written as " .")
+				for k := r.Range(1, 3); k > 0; k-- {
+					at := r.Pick2i(0, r.Intn(len(ls)+1))
+					ls = append(ls[:at], append([]string{""}, ls[at:]...)...)
+				}
+			}
 			s = strings.Join(ls, "\n")
 		} else {
 			s = strings.TrimSpace(genLineText(r))
